@@ -30,7 +30,10 @@ def gen(sh):
     f = sh.f
     P = sh.pt
     L = []
+    G = []   # statements about the regenerated definitions (`Gen.*`): they live in Props/C13.lean so that a change of the
+             # C++ breaks exactly the theorems about the changed function (drafted into <scratch>/props_gen_<S>.txt)
     w = L.append
+    g = G.append
     refl_min = sh.tup(["⟨le_refl _, hn%d⟩" % i for i in range(n)])
     refl_max = sh.tup(["⟨hn%d, le_refl _⟩" % i for i in range(n)])
     refl_pt = sh.tup(["⟨le_refl _, le_refl _⟩"] * n)
@@ -96,13 +99,13 @@ def gen(sh):
     w("theorem %s.ext_s (b : %s α) (lo hi : %s) : %s.ext b lo hi =\n    ⟨%s, %s⟩ := by" % (S, S, V, S, P(smins), P(smaxs)))
     w("  simp only [%s.ext, smin_eq_min, smax_eq_max]\n" % S)
     for fn, arg, argty, lo, hi in (("extendByPoint", "p", V, "p", "p"), ("extendByBox", "o", S + " α", "o.min", "o.max")):
-        w("theorem %s.%s_eq (b : %s α) (%s : %s) : Gen.%s.%s b %s = %s.ext b %s %s := by" % (S, fn, S, arg, argty, S, fn, arg, S, lo, hi))
-        w("  rw [%s.ext_s]; unfold Gen.%s.%s smin smax" % (S, S, fn))
+        g("theorem %s.%s_eq (b : %s α) (%s : %s) : Gen.%s.%s b %s = %s.ext b %s %s := by" % (S, fn, S, arg, argty, S, fn, arg, S, lo, hi))
+        g("  rw [%s.ext_s]; unfold Gen.%s.%s smin smax" % (S, S, fn))
         cs = []
         for i, a in enumerate(A):
             cs.append("casesplit h%da : %s < %s" % (i, f(lo, a), f("b.min", a)))
             cs.append("casesplit h%db : %s < %s" % (i, f("b.max", a), f(hi, a)))
-        w("  " + " <;>\n  ".join(cs) + "\n")
+        g("  " + " <;>\n  ".join(cs) + "\n")
     hyps = " ".join("(h%d : %s ≤ %s)" % (i, f("lo", a), f("hi", a)) for i, a in enumerate(A))
     w("/-- extending a non-inverted box by a non-inverted range is their least upper bound -/")
     w("theorem %s.ext_subset_iff (b c : %s α) (lo hi : %s) (hb : ¬ %s.Inverted b) %s :\n    %s.Subset (%s.ext b lo hi) c ↔ %s.Subset b c ∧ %s.Subset ⟨lo, hi⟩ c := by"
@@ -128,18 +131,28 @@ def gen(sh):
     w("  simp only [%s.ext, %s.canonEmpty, min_eq_left (hr _).2, max_eq_left (hr _).1]\n" % (S, S))
     # --- sequences of extendBy calls
     w("/-- one `extendBy` call -/")
-    w("def %s.step (b : %s α) : %s.Arg α → %s α\n  | .pt p => Gen.%s.extendByPoint b p\n  | .bx o => Gen.%s.extendByBox b o\n" % (S, S, S, S, S, S))
+    w("def %s.stepN (b : %s α) : %s.Arg α → %s α\n  | .pt p => %s.ext b p p\n  | .bx o => %s.ext b o.min o.max\n" % (S, S, S, S, S, S))
+    g("/-- one `extendBy` call -/")
+    g("def %s.step (b : %s α) : %s.Arg α → %s α\n  | .pt p => Gen.%s.extendByPoint b p\n  | .bx o => Gen.%s.extendByBox b o\n" % (S, S, S, S, S, S))
+    g("/-- a sequence of `extendBy` calls, in order -/")
+    g("def %s.extendAll (b : %s α) (args : List (%s.Arg α)) : %s α := args.foldl %s.step b\n" % (S, S, S, S, S))
+    g("theorem %s.step_eq (b : %s α) (a : %s.Arg α) : %s.step b a = %s.stepN b a := by" % (S, S, S, S, S))
+    g("  cases a <;> simp only [%s.step, %s.stepN, %s.extendByPoint_eq, %s.extendByBox_eq]\n" % (S, S, S, S))
+    g("theorem %s.extendAll_eq (args : List (%s.Arg α)) : ∀ b : %s α, %s.extendAll b args = %s.extendAllN b args := by" % (S, S, S, S, S))
+    g("  induction args with")
+    g("  | nil => intro b; rfl")
+    g("  | cons a rest ih => intro b; simp only [%s.extendAll, %s.extendAllN, List.foldl_cons, %s.step_eq] at ih ⊢; exact ih _\n" % (S, S, S))
     w("/-- a sequence of `extendBy` calls, in order -/")
-    w("def %s.extendAll (b : %s α) (args : List (%s.Arg α)) : %s α := args.foldl %s.step b\n" % (S, S, S, S, S))
-    w("theorem %s.step_spec (tmax tlowest : α) (hlt : tlowest < tmax) (hr : ∀ x : α, tlowest ≤ x ∧ x ≤ tmax)\n"
+    w("def %s.extendAllN (b : %s α) (args : List (%s.Arg α)) : %s α := args.foldl %s.stepN b\n" % (S, S, S, S, S))
+    w("theorem %s.stepN_spec (tmax tlowest : α) (hlt : tlowest < tmax) (hr : ∀ x : α, tlowest ≤ x ∧ x ≤ tmax)\n"
       "    (b : %s α) (hb : %s.Canon tmax tlowest b) (a : %s.Arg α) (ha : a.Ok tmax tlowest) :\n"
-      "    %s.Canon tmax tlowest (%s.step b a) ∧ ∀ c, %s.Subset (%s.step b a) c ↔ %s.Subset b c ∧ a.Within c := by"
+      "    %s.Canon tmax tlowest (%s.stepN b a) ∧ ∀ c, %s.Subset (%s.stepN b a) c ↔ %s.Subset b c ∧ a.Within c := by"
       % (S, S, S, S, S, S, S, S, S))
     w("  have hce : ∀ c, %s.Subset (%s.canonEmpty tmax tlowest) c :=\n    fun c => %s.subset_of_inverted _ c (%s.canonEmpty_inverted tmax tlowest hlt)" % (S, S, S, S))
     refls = " ".join(["(le_refl _)"] * n)
     w("  cases a with")
     w("  | pt p =>")
-    w("    simp only [%s.step, %s.extendByPoint_eq, %s.Arg.Within]" % (S, S, S))
+    w("    simp only [%s.stepN, %s.Arg.Within]" % (S, S))
     w("    rcases hb with hb | rfl")
     w("    · refine ⟨Or.inl (%s.ext_not_inverted b p p hb), fun c => ?_⟩" % S)
     w("      rw [%s.ext_subset_iff b c p p hb %s, %s.point_subset_iff]" % (S, refls, S))
@@ -148,7 +161,7 @@ def gen(sh):
     w("      · simp only [%s.Inverted, not_or, not_lt]; bord" % S)
     w("      · rw [%s.point_subset_iff]; exact ⟨fun h => ⟨hce c, h⟩, fun h => h.2⟩" % S)
     w("  | bx o =>")
-    w("    simp only [%s.step, %s.extendByBox_eq, %s.Arg.Within]" % (S, S, S))
+    w("    simp only [%s.stepN, %s.Arg.Within]" % (S, S))
     w("    simp only [%s.Arg.Ok] at ha" % S)
     w("    rcases hb with hb | rfl")
     w("    · rcases ha with ho | rfl")
@@ -161,50 +174,50 @@ def gen(sh):
     w("        exact ⟨Or.inl hb, fun c => ⟨fun h => ⟨h, hce c⟩, fun h => h.1⟩⟩")
     w("    · rw [%s.ext_canonEmpty tmax tlowest hr]" % S)
     w("      exact ⟨ha, fun c => ⟨fun h => ⟨hce c, h⟩, fun h => h.2⟩⟩\n")
-    w("theorem %s.extendAll_spec (tmax tlowest : α) (hlt : tlowest < tmax) (hr : ∀ x : α, tlowest ≤ x ∧ x ≤ tmax)\n"
+    w("theorem %s.extendAllN_spec (tmax tlowest : α) (hlt : tlowest < tmax) (hr : ∀ x : α, tlowest ≤ x ∧ x ≤ tmax)\n"
       "    (args : List (%s.Arg α)) : ∀ (b : %s α), %s.Canon tmax tlowest b → (∀ a ∈ args, a.Ok tmax tlowest) →\n"
-      "    %s.Canon tmax tlowest (%s.extendAll b args) ∧\n"
-      "      ∀ c, %s.Subset (%s.extendAll b args) c ↔ %s.Subset b c ∧ ∀ a ∈ args, a.Within c := by"
+      "    %s.Canon tmax tlowest (%s.extendAllN b args) ∧\n"
+      "      ∀ c, %s.Subset (%s.extendAllN b args) c ↔ %s.Subset b c ∧ ∀ a ∈ args, a.Within c := by"
       % (S, S, S, S, S, S, S, S, S))
     w("  induction args with")
-    w("  | nil => intro b hb _; exact ⟨hb, fun c => by simp [%s.extendAll]⟩" % S)
+    w("  | nil => intro b hb _; exact ⟨hb, fun c => by simp [%s.extendAllN]⟩" % S)
     w("  | cons a rest ih =>")
     w("    intro b hb hargs")
-    w("    have hs := %s.step_spec tmax tlowest hlt hr b hb a (hargs a (List.mem_cons_self ..))" % S)
-    w("    have := ih (%s.step b a) hs.1 (fun x hx => hargs x (List.mem_cons_of_mem _ hx))" % S)
+    w("    have hs := %s.stepN_spec tmax tlowest hlt hr b hb a (hargs a (List.mem_cons_self ..))" % S)
+    w("    have := ih (%s.stepN b a) hs.1 (fun x hx => hargs x (List.mem_cons_of_mem _ hx))" % S)
     w("    refine ⟨this.1, fun c => ?_⟩")
     w("    have h2 := this.2 c")
-    w("    simp only [%s.extendAll, List.foldl_cons, List.mem_cons, forall_eq_or_imp] at h2 ⊢" % S)
+    w("    simp only [%s.extendAllN, List.foldl_cons, List.mem_cons, forall_eq_or_imp] at h2 ⊢" % S)
     w("    rw [h2, hs.2 c, and_assoc]\n")
     # --- queries
-    w("theorem %s.intersectsPoint_iff (b : %s α) (p : %s) : Gen.%s.intersectsPoint b p = true ↔ %s.Mem p b := by" % (S, S, V, S, S))
-    w("  simp only [Gen.%s.intersectsPoint, ite_false_iff, ite_false'_iff, not_lt, not_le, %s.Mem, and_assoc, and_true] <;> tauto\n" % (S, S))
+    g("theorem %s.intersectsPoint_iff (b : %s α) (p : %s) : Gen.%s.intersectsPoint b p = true ↔ %s.Mem p b := by" % (S, S, V, S, S))
+    g("  simp only [Gen.%s.intersectsPoint, ite_false_iff, ite_false'_iff, not_lt, not_le, %s.Mem, and_assoc, and_true] <;> tauto\n" % (S, S))
     axes_rhs = " ∧ ".join("(%s ≤ %s ∧ %s ≤ %s)" % (f("b.min", a), f("a.max", a), f("a.min", a), f("b.max", a)) for a in A)
-    w("/-- for NON-EMPTY boxes `intersects(box)` is per-axis overlap of the min/max pairs (written so that it also holds if the\ncode tests emptiness first) -/")
-    w("theorem %s.intersectsBox_iff_axes_of_nonempty (a b : %s α) (ha : ¬ %s.Inverted a) (hb : ¬ %s.Inverted b) :\n    Gen.%s.intersectsBox a b = true ↔ %s := by" % (S, S, S, S, S, axes_rhs))
-    w("  simp only [%s.Inverted, not_or, not_lt] at ha hb" % S)
-    w("  simp only [Gen.%s.intersectsBox, ite_false_iff, ite_false'_iff, ite_true_iff, not_lt, not_le, and_assoc, and_true] <;> tauto\n" % S)
+    g("/-- for NON-EMPTY boxes `intersects(box)` is per-axis overlap of the min/max pairs (written so that it also holds if the\ncode tests emptiness first) -/")
+    g("theorem %s.intersectsBox_iff_axes_of_nonempty (a b : %s α) (ha : ¬ %s.Inverted a) (hb : ¬ %s.Inverted b) :\n    Gen.%s.intersectsBox a b = true ↔ %s := by" % (S, S, S, S, S, axes_rhs))
+    g("  simp only [%s.Inverted, not_or, not_lt] at ha hb" % S)
+    g("  simp only [Gen.%s.intersectsBox, ite_false_iff, ite_false'_iff, ite_true_iff, not_lt, not_le, and_assoc, and_true] <;> tauto\n" % S)
     w("theorem %s.not_inverted_of_mem (p : %s) (a : %s α) (h : %s.Mem p a) : ¬ %s.Inverted a :=" % (S, V, S, S, S))
     w("  fun hi => (%s.isEmptySet_iff a).2 hi p h\n" % S)
-    w("theorem %s.intersectsBox_of_common (a b : %s α) (h : ∃ p, %s.Mem p a ∧ %s.Mem p b) :\n    Gen.%s.intersectsBox a b = true := by" % (S, S, S, S, S))
-    w("  obtain ⟨p, hpa, hpb⟩ := h")
-    w("  rw [%s.intersectsBox_iff_axes_of_nonempty a b (%s.not_inverted_of_mem p a hpa) (%s.not_inverted_of_mem p b hpb)]" % (S, S, S))
-    w("  obtain %s := hpa" % mem_pat("q"))
-    w("  obtain %s := hpb" % mem_pat("r"))
-    w("  bord\n")
-    w("theorem %s.intersectsBox_symm (a b : %s α) : Gen.%s.intersectsBox a b = Gen.%s.intersectsBox b a := by" % (S, S, S, S))
-    w("  unfold Gen.%s.intersectsBox; split_ifs <;> first | rfl | (exfalso; bord)\n" % S)
+    g("theorem %s.intersectsBox_of_common (a b : %s α) (h : ∃ p, %s.Mem p a ∧ %s.Mem p b) :\n    Gen.%s.intersectsBox a b = true := by" % (S, S, S, S, S))
+    g("  obtain ⟨p, hpa, hpb⟩ := h")
+    g("  rw [%s.intersectsBox_iff_axes_of_nonempty a b (%s.not_inverted_of_mem p a hpa) (%s.not_inverted_of_mem p b hpb)]" % (S, S, S))
+    g("  obtain %s := hpa" % mem_pat("q"))
+    g("  obtain %s := hpb" % mem_pat("r"))
+    g("  bord\n")
+    g("theorem %s.intersectsBox_symm (a b : %s α) : Gen.%s.intersectsBox a b = Gen.%s.intersectsBox b a := by" % (S, S, S, S))
+    g("  unfold Gen.%s.intersectsBox; split_ifs <;> first | rfl | (exfalso; bord)\n" % S)
     wit = P(["max %s %s" % (f("a.min", a), f("b.min", a)) for a in A])
     w("theorem %s.common_of_axes (a b : %s α) (ha : ¬ %s.Inverted a) (hb : ¬ %s.Inverted b)\n    (h : %s) :\n    ∃ p, %s.Mem p a ∧ %s.Mem p b := by"
       % (S, S, S, S, axes_rhs, S, S))
     w("  simp only [%s.Inverted, not_or, not_lt] at ha hb" % S)
     w("  refine ⟨%s, ?_, ?_⟩ <;> simp only [%s.Mem, le_max_iff, max_le_iff] <;> bord\n" % (wit, S))
     inv_rhs = " ∨ ".join("%s < %s" % (f("b.max", a), f("b.min", a)) for a in A)
-    w("theorem %s.isEmpty_iff (b : %s α) : Gen.%s.isEmpty b = true ↔ %s.Inverted b := by" % (S, S, S, S))
-    w("  simp only [Gen.%s.isEmpty, ite_true_iff, ite_false_iff, ite_false'_iff, %s.Inverted, Bool.false_eq_true, or_false, and_true, not_lt, not_le] <;> tauto\n" % (S, S))
+    g("theorem %s.isEmpty_iff (b : %s α) : Gen.%s.isEmpty b = true ↔ %s.Inverted b := by" % (S, S, S, S))
+    g("  simp only [Gen.%s.isEmpty, ite_true_iff, ite_false_iff, ite_false'_iff, %s.Inverted, Bool.false_eq_true, or_false, and_true, not_lt, not_le] <;> tauto\n" % (S, S))
     vol_rhs = " ∧ ".join("%s < %s" % (f("b.min", a), f("b.max", a)) for a in A)
-    w("theorem %s.hasVolume_iff (b : %s α) : Gen.%s.hasVolume b = true ↔ %s := by" % (S, S, S, vol_rhs))
-    w("  simp only [Gen.%s.hasVolume, ite_true_iff, ite_false_iff, ite_false'_iff, Bool.false_eq_true, or_false, and_true, not_lt, not_le] <;> tauto\n" % S)
+    g("theorem %s.hasVolume_iff (b : %s α) : Gen.%s.hasVolume b = true ↔ %s := by" % (S, S, S, vol_rhs))
+    g("  simp only [Gen.%s.hasVolume, ite_true_iff, ite_false_iff, ite_false'_iff, Bool.false_eq_true, or_false, and_true, not_lt, not_le] <;> tauto\n" % S)
     if n > 1:
         destr = "obtain ⟨⟨%s⟩, ⟨%s⟩⟩ := b" % (", ".join("l%d" % i for i in range(n)), ", ".join("u%d" % i for i in range(n)))
         destr_a = "obtain ⟨⟨%s⟩, ⟨%s⟩⟩ := a" % (", ".join("m%d" % i for i in range(n)), ", ".join("v%d" % i for i in range(n)))
@@ -213,27 +226,27 @@ def gen(sh):
         destr = "obtain ⟨l0, u0⟩ := b"
         destr_a = "obtain ⟨m0, v0⟩ := a"
         inj = "%s.mk.injEq" % S
-    w("theorem %s.isInfinite_iff (tmax tlowest : α) (b : %s α) :\n    Gen.%s.isInfinite tmax tlowest b = true ↔ b = %s.canonInfinite tmax tlowest := by" % (S, S, S, S))
-    w("  %s" % destr)
-    w("  simp only [Gen.%s.isInfinite, ite_false_iff, ite_false'_iff, not_not, %s.canonInfinite, %s, and_true] <;> tauto\n" % (S, S, inj))
-    w("theorem %s.eq_iff (a b : %s α) : Gen.%s.eq a b = true ↔ a = b := by" % (S, S, S))
-    w("  %s\n  %s" % (destr_a, destr))
-    w("  simp only [Gen.%s.eq, ite_false_iff, ite_false'_iff, not_not, %s, and_true] <;> tauto\n" % (S, inj))
-    w("theorem %s.ne_eq_not_eq (a b : %s α) : Gen.%s.ne a b = !Gen.%s.eq a b := by" % (S, S, S, S))
-    w("  unfold Gen.%s.ne Gen.%s.eq; split_ifs <;> rfl\n" % (S, S))
+    g("theorem %s.isInfinite_iff (tmax tlowest : α) (b : %s α) :\n    Gen.%s.isInfinite tmax tlowest b = true ↔ b = %s.canonInfinite tmax tlowest := by" % (S, S, S, S))
+    g("  %s" % destr)
+    g("  simp only [Gen.%s.isInfinite, ite_false_iff, ite_false'_iff, not_not, %s.canonInfinite, %s, and_true] <;> tauto\n" % (S, S, inj))
+    g("theorem %s.eq_iff (a b : %s α) : Gen.%s.eq a b = true ↔ a = b := by" % (S, S, S))
+    g("  %s\n  %s" % (destr_a, destr))
+    g("  simp only [Gen.%s.eq, ite_false_iff, ite_false'_iff, not_not, %s, and_true] <;> tauto\n" % (S, inj))
+    g("theorem %s.ne_eq_not_eq (a b : %s α) : Gen.%s.ne a b = !Gen.%s.eq a b := by" % (S, S, S, S))
+    g("  unfold Gen.%s.ne Gen.%s.eq; split_ifs <;> rfl\n" % (S, S))
     # --- clip
     clamps = [("sclamp %s %s %s" % (f("p", a), f("b.min", a), f("b.max", a))) for a in A]
     w("/-- normal form of `clip` / `closestPointInBox`: per axis `(p < min) ? min : (p > max) ? max : p` -/")
     w("def %s.clipN (p : %s) (b : %s α) : %s := %s\n" % (S, V, S, V, P(clamps)))
     if S != "Interval":
         for fn in ("clip", "closestPointInBox"):
-            w("theorem %s.%s_eq (p : %s) (b : %s α) : Gen.%s.%s p b = %s.clipN p b := by" % (S, fn, V, S, S, fn, S))
-            w("  unfold Gen.%s.%s %s.clipN sclamp" % (S, fn, S))
+            g("theorem %s.%s_eq (p : %s) (b : %s α) : Gen.%s.%s p b = %s.clipN p b := by" % (S, fn, V, S, S, fn, S))
+            g("  unfold Gen.%s.%s %s.clipN sclamp" % (S, fn, S))
             cs = []
             for i, a in enumerate(A):
                 cs.append("casesplit h%da : %s < %s" % (i, f("p", a), f("b.min", a)))
                 cs.append("casesplit h%db : %s < %s" % (i, f("b.max", a), f("p", a)))
-            w("  " + " <;>\n  ".join(cs) + "\n")
+            g("  " + " <;>\n  ".join(cs) + "\n")
     w("theorem %s.clipN_mem (p : %s) (b : %s α) (hb : ¬ %s.Inverted b) : %s.Mem (%s.clipN p b) b := by" % (S, V, S, S, S, S))
     w("  simp only [%s.Inverted, not_or, not_lt] at hb" % S)
     w("  %s %s := hb" % ("obtain" if n > 1 else "have", hn_pat))
@@ -242,7 +255,7 @@ def gen(sh):
     w("  obtain %s := hp" % mem_pat("q"))
     w("  simp only [%s.clipN, %s]\n" % (S, ", ".join("sclamp_fixed _ _ _ q%da q%db" % (i, i) for i in range(n))))
     w("end %s_order\n" % S)
-    return "\n".join(L)
+    return "\n".join(L), "\n".join(G)
 
 
 HEADER = '''import ImathVerif.Lemmas.C13Lemmas
@@ -266,7 +279,11 @@ variable {α : Type}
 if __name__ == "__main__":
     shapes = [Shape("Interval", "α", [""]), Shape("Box2", "V2 α", ["x", "y"]), Shape("Box3", "V3 α", ["x", "y", "z"]),
               Shape("Box4", "V4 α", ["x", "y", "z", "w"])]
-    txt = HEADER + "\n".join(gen(s) for s in shapes) + "\nend ImathVerif.C13\n"
+    res = [gen(s) for s in shapes]
+    txt = HEADER + "\n".join(r[0] for r in res) + "\nend ImathVerif.C13\n"
     out = sys.argv[1] if len(sys.argv) > 1 else OUT
     open(out, "w").write(txt)
     print("wrote", out, len(txt.split("\n")), "lines")
+    if len(sys.argv) > 2:   # drafts of the Gen-touching statements, spliced by hand into Props/C13.lean
+        for sh, r in zip(shapes, res):
+            open(os.path.join(sys.argv[2], "props_gen_%s.txt" % sh.S), "w").write(r[1] + "\n")
